@@ -618,8 +618,13 @@ impl TxRecoveryState {
                     );
                 },
                 TxWalEntry::PrepareVote { tx_id, shard, vote } => {
-                    if let Some((_, votes, _)) = in_progress.get_mut(tx_id) {
-                        votes.push((*shard, *vote));
+                    // `record_vote` logs a vote before validating it, so the log also
+                    // holds votes it then rejected (late or duplicate). Keep only the
+                    // votes it accepted: first vote per shard while still preparing.
+                    if let Some((_, votes, phase)) = in_progress.get_mut(tx_id) {
+                        if *phase == TxPhase::Preparing && !votes.iter().any(|(s, _)| s == shard) {
+                            votes.push((*shard, *vote));
+                        }
                     }
                 },
                 TxWalEntry::PhaseChange { tx_id, to, .. } => {
